@@ -22,7 +22,8 @@ def parseObs (kv : List (String × String)) : Option Obs := do
 
 def parseProcObs (kv : List (String × String)) : Option ProcObs := do
   pure { rc := getS kv "rc", total := ← getN? kv "total", fired := ← getN? kv "fired", disc := ← getN? kv "disc",
-         bad := ← getN? kv "bad", served := ← getN? kv "served", minDisc := ← getN? kv "mindisc" }
+         bad := ← getN? kv "bad", served := ← getN? kv "served", minDisc := ← getN? kv "mindisc",
+         recv := ← getN? kv "recv", errs := ← getN? kv "errs" }
 
 /-- duration of `once:N` / `const:OPS:MS` / `line:FROM:TO:MS` / `step:FROM:TO:STEP:MS` (MS per step) joined by `+`, ns -/
 def profDur (p : String) : Option Int :=
@@ -39,15 +40,22 @@ def profDur (p : String) : Option Int :=
           some (acc + steps * m * 1000000)
     | _ => none
 
+def cancelAt (kv : List (String × String)) : Option Int :=
+  match lookup kv "cancel" with
+  | some c => (c.toInt?).map (· * 1000000)
+  | none => some 0
+
 def parseInput (kv : List (String × String)) : Option Input := do
   let mode := getS kv "mode"
   if mode == "waiter" then
-    pure { mode, discard := true, profDur := 0, maxResp := 0, cancelled := (lookup kv "cancel").isSome }
+    pure { mode, discard := true, profDur := 0, maxResp := 0, cancelled := (lookup kv "cancel").isSome,
+           cancelAt := ← cancelAt kv }
   else if mode == "engine" then
     let resp ← parseInts (getS kv "resp" "0")
     pure { mode, discard := getS kv "discard" == "1", profDur := ← profDur (getS kv "prof"),
            maxResp := resp.foldl (fun a b => max a (b * 1000000)) 0, cancelled := (lookup kv "cancel").isSome,
-           perInst := getS kv "perinst" == "1" }
+           perInst := getS kv "perinst" == "1", cancelAt := ← cancelAt kv,
+           startDur := ← (match lookup kv "startup" with | some p => profDur p | none => some 0) }
   else none
 
 /-- one iteration of the instance loop as observed, with the clock reading placed at `now` -/
